@@ -14,7 +14,10 @@ type Rule struct {
 	ID   string
 	Doc  string
 	Run  func(c *an.Ctx)
-	Tier string // "" = both tiers; "thorough" = thorough only
+	// Alias names a rule of another property that this rule re-runs under
+	// its own id (mechanisms shared between properties).
+	Alias string
+	Tier  string // "" = both tiers; "thorough" = thorough only
 	// Scope: "main" (default) runs on the main module configurations;
 	// "sub:<dir>" runs on a sub-module.
 	Scope string
@@ -69,7 +72,40 @@ func RunRules(prop *Property, p *an.Prog, rep *an.Report, scope string, only str
 	}
 }
 
+// resolveAlias fills Run/Doc of an aliased rule.
+func resolveAlias(r Rule) Rule {
+	if r.Alias == "" {
+		return r
+	}
+	for _, p := range registry {
+		for _, o := range p.Rules {
+			if o.ID == r.Alias && o.Alias == "" {
+				r.Run = o.Run
+				if r.Doc == "" {
+					r.Doc = "= " + o.ID + ": " + o.Doc
+				} else {
+					r.Doc = r.Doc + " (= " + o.ID + ")"
+				}
+				return r
+			}
+		}
+	}
+	id := r.Alias
+	r.Run = func(c *an.Ctx) { c.Undecided("aliased rule %s not found", id) }
+	return r
+}
+
+// ResolvedRules returns the rules of a property with aliases resolved.
+func ResolvedRules(p *Property) []Rule {
+	out := make([]Rule, len(p.Rules))
+	for i, r := range p.Rules {
+		out[i] = resolveAlias(r)
+	}
+	return out
+}
+
 func runOne(r Rule, p *an.Prog, rep *an.Report) {
+	r = resolveAlias(r)
 	ctx := &an.Ctx{P: p, Rep: rep, Rule: r.ID}
 	ctx.Doc(r.Doc)
 	defer func() {
